@@ -91,6 +91,7 @@ func init() {
 			ruleFWD(w, r, pf, []string{"pathAhead", "before", "oldValues", "newValues", "after", "strategy"})
 			rulePatchResult(w, r, pf, listModePatch)
 			ruleExpect(w, r, pf, listModePatch)
+			ruleDescend(w, r, pf)
 			r.Floor("R-EXPECT", 12)
 			r.Floor("R-FWD", 80)
 			r.Floor("R-PATCHRESULT", 10)
@@ -265,6 +266,7 @@ func init() {
 		Run: func(w *World, r *Report) {
 			v2 := w.Pkg(pathV2)
 			ruleAutomaton(w, r, v2)
+			rulePathFresh(w, r, v2, "v2")
 			rulePathTab(w, r, v2)
 			ruleJSONCodec(w, r, v2, "v2")
 			r.Floor("R-AUTOMATON", 50)
@@ -284,5 +286,54 @@ func init() {
 			ruleJSONCodec(w, r, v2, "v2")
 			r.Floor("R-YAMLTYPES", 12)
 			r.Floor("R-CODEC", 20)
+		}})
+}
+
+func init() {
+	register(&PropSpec{ID: "C09",
+		Explain: "Decides structural necessary conditions of the RFC 6902 rendering: (R-PTR) writePointer writes a token for every path element or returns an error, every object key reaches the pointer only through jsonpointer.Escape, number-like keys and the key \"-\" are refused before they could be written, set/multiset path elements are refused; (R-PAIR) the only ops emitted are test, remove, add and every remove is emitted right after a test of the same pointer and value; (R-REVADD) all adds of one hunk target one pointer, so the hunk's Add list is traversed backwards (RFC 6902 add inserts before).",
+		NotDecided:  "Equivalence with an RFC 6902 evaluator: op order across hunks, the index arithmetic of the context tests.",
+		Assumptions: commonAssumptions,
+		Run: func(w *World, r *Report) {
+			v2 := w.Pkg(pathV2)
+			rulePtr(w, r, v2, "v2")
+			rulePair(w, r, v2, "v2")
+			ruleRevAdd(w, r, v2, "v2", "Add")
+			r.Floor("R-PTR", 6)
+		}})
+	register(&PropSpec{ID: "C10",
+		Explain: "Decides structural necessary conditions of `never more permissive than RFC 6902`: (R-OPSUBSET) the reader's op vocabulary is exactly add/remove/test, a test commits only if the next op is a remove of the same pointer with an equal value (each failing side only returns errors), any other op only reaches error returns; (R-PARENT) a test op is consumed as list context only after its pointer was related to the edit's pointer beyond the last index (same array); (R-PTRREAD) pointer tokens are decoded, \"-\" maps to -1, digits to indices; (R-PREPEND) a coalesced add is placed in front of those already collected; (R-FWD on before/after) the context the reader records reaches the array it belongs to at any depth.",
+		NotDecided:  "The full index case analysis of the context inference (which of up to three ops are context for every op sequence).",
+		Assumptions: commonAssumptions,
+		Run: func(w *World, r *Report) {
+			v2 := w.Pkg(pathV2)
+			ruleOpSubset(w, r, v2)
+			ruleParent(w, r, v2)
+			rulePtrRead(w, r, v2)
+			rulePrepend(w, r, v2)
+			pf := newPatchFamily(w, v2, "v2")
+			ruleFWD(w, r, pf, []string{"before", "after"})
+			r.Floor("R-FWD", 25)
+		}})
+	register(&PropSpec{ID: "C11",
+		Explain: "Decides structural necessary conditions of the RFC 7386 rendering: (R-MERGEHUNK, diff side) every hunk a diff function builds on a path that is control-dependent on merge strategy carries Metadata.Merge and removes nothing; RenderMerge refuses hunks without the flag, turns every void addition into null in the diff it patches into the empty (void) document, and renders that document.",
+		NotDecided:  "Agreement of the rendered document with the RFC 7386 algorithm on concrete values.",
+		Assumptions: commonAssumptions,
+		Run: func(w *World, r *Report) {
+			v2 := w.Pkg(pathV2)
+			ruleMergeHunkDiff(w, r, v2)
+			ruleMergeRender(w, r, v2)
+		}})
+	register(&PropSpec{ID: "C12",
+		Explain: "Decides structural necessary conditions of reading RFC 7386: (R-MERGEHUNK, reader side) every hunk readMergeInto builds carries Metadata.Merge, a null becomes a void addition (delete), and patchAll selects merge strategy exactly for hunks with the flag (R-FWD driver), so the leaf patch replaces instead of demanding an old value.",
+		NotDecided:  "Conformance with the RFC pseudo-code on values (known divergence: a nested {} over an existing object replaces it).",
+		Assumptions: commonAssumptions,
+		Run: func(w *World, r *Report) {
+			v2 := w.Pkg(pathV2)
+			ruleMergeRead(w, r, v2)
+			pf := newPatchFamily(w, v2, "v2")
+			ruleFWD(w, r, pf, []string{"newValues", "strategy", "pathAhead"})
+			ruleDescend(w, r, pf)
+			rulePathFresh(w, r, v2, "v2")
 		}})
 }
